@@ -55,6 +55,8 @@ let () =
          if hang = "1" then begin
            if must_have_returned c evs then
              Viol "progress: ctx ended / Timeout elapsed on a deadline-honouring conn, Dial had not returned after 3 s"
+           else if tmo = "short" && _silent <> "-1" then
+             Viol "progress: Dialer.Timeout (20 ms) elapsed in real time on a silent peer, Dial had not returned after 3 s"
            else Diff "scenario hung although nothing ended (harness scenario without a trigger)"
          end
          else if leak = "1" then Viol "a goroutine started by Dial is still alive 3 s after Dial returned"
